@@ -1,5 +1,5 @@
 #!/usr/bin/env python3
-"""tools/seed_matrix.py [name-prefix ...]: run, for every seeded change under /verif/seeded, the quick check of its property against a scratch
+"""[MATRIX_JOBS=n] tools/seed_matrix.py [name-prefix ...]: run, for every seeded change under /verif/seeded, the quick check of its property against a scratch
 worktree of /repo's HEAD with the change applied (tools/try_seed_copy.sh; /repo itself is not touched) and record in the seed's meta.json
 what the check said: exit code, failing clauses (the histogram the check prints) and the wall time.  A seed whose check exits 0 is a MISS."""
 import os
@@ -17,12 +17,14 @@ def main():
     want = sys.argv[1:]
     names = sorted(n for n in os.listdir(ROOT) if os.path.isdir(os.path.join(ROOT, n)) and (not want or any(n.startswith(w) for w in want)))
     missed = []
-    for n in names:
+    from concurrent.futures import ThreadPoolExecutor
+
+    def one(n):
         d = os.path.join(ROOT, n)
         meta = json.load(open(os.path.join(d, "meta.json")))
         if meta.get("obsolete"):
             print("%-40s obsolete: %s" % (n, meta["obsolete"][:100]), flush=True)
-            continue
+            return
         prop = meta["property"]
         checks = [prop] + [c for c in meta.get("also_check", [])]
         meta["detected_by"] = []
@@ -49,6 +51,8 @@ def main():
         if not any(r["exit"] == 1 and r["violation_lines"] for r in meta["detected_by"]):
             missed.append(n)
         json.dump(meta, open(os.path.join(d, "meta.json"), "w"), indent=1)
+    with ThreadPoolExecutor(max_workers=int(os.environ.get("MATRIX_JOBS", "1"))) as ex:       # MATRIX_JOBS=3: three seeds at a time (each run has a scratch worktree and evidence directory of its own)
+        list(ex.map(one, names))
     print("MISSED:", missed)
     return 1 if missed else 0
 
